@@ -721,6 +721,20 @@ def eval_concrete(e, env):
     raise NoValue(e)
 
 
+def cond_holds(cond, env):
+    """Does the recorded branch condition (expr, taken, inst) hold under env?  Handles switch conditions
+    (taken is the case value or 'default')."""
+    e, taken, inst = cond
+    v = eval_concrete(e, env)
+    if inst is not None and getattr(inst, "op", None) == "switch":
+        bits = expr_bits(e) or 32
+        cases = [cv & mask(bits) for cv, b in inst["cases"]]
+        if taken == "default":
+            return (v & mask(bits)) not in cases
+        return (v & mask(bits)) == (taken & mask(bits))
+    return bool(v) == bool(taken)
+
+
 def expr_bits(e):
     k = e[0]
     if k == "c":
